@@ -245,6 +245,15 @@ func genPlan(r *vlib.Rand) plan {
 	if r.Chance(22) {
 		p.csrIA = []string{iaB, "", "1-ff00:0:zz", iaCore, "1-FF00:0:111", iaISD2}[r.Intn(6)]
 	}
+	if r.Chance(14) {
+		// the chain of an issuing AS: CA certificate and AS certificate carry the same ISD-AS; the
+		// signer info naming the CA certificate / a signature by the CA key must still be refused
+		p.asIA, p.csrIA = iaCore, iaCore
+		p.variant = []int{vSignedByCA, vSignedByCA, vSIDNamesCA, vNormal, vCAFirst}[r.Intn(5)]
+		p.csrSigBad = false
+		p.csrNotCSR = false
+		return p
+	}
 	p.csrSigBad = r.Chance(8)
 	p.csrNotCSR = r.Chance(3)
 	if r.Chance(45) {
@@ -515,6 +524,9 @@ func runCase(e *vlib.Env, w *world, r *vlib.Rand, p plan, idx int) {
 		tag := "req/" + ans + "/" + variantName[p.variant]
 		if ans == "ok" && !f.okL {
 			tag = "req/ok-grace/" + variantName[p.variant]
+		}
+		if p.asIA == iaCore {
+			tag += "+issuing-as"
 		}
 		if !f.parseOK {
 			tag = "~" + tag
